@@ -225,7 +225,13 @@ func genArg0(r *hlib.Rng, cols []genCol, kind string, depth int, malformed bool)
 			}
 		}
 		if malformed && r.Chance(1, 6) {
-			return enode{types.ColumnName("nosuch"), "(EColName " + hlib.Str("nosuch") + ")", "col(nosuch)"}
+			nm := "nosuch"
+			if r.Chance(1, 3) {
+				// a missing column whose name looks like one of Eval's temporaries
+				nm = []string{"colcol-temp-0", "const-temp-0", "unary-temp-0", "colcol-temp-1"}[r.Intn(4)]
+				tempShapedRef = true
+			}
+			return enode{types.ColumnName(nm), "(EColName " + hlib.Str(nm) + ")", "col(" + nm + ")"}
 		}
 		if len(cands) > 0 {
 			c := cands[r.Intn(len(cands))]
@@ -278,7 +284,11 @@ func genCall(r *hlib.Rng, cols []genCol, kind string, depth int, malformed bool)
 	return enode{e, "(EBuilt (expr_call " + hlib.Str(op) + " " + hlib.List(coqArgs) + "))", desc}
 }
 
+// tempShapedRef is set by the generator when the expression refers to a missing column named like a temporary
+var tempShapedRef bool
+
 func evalCase(r *hlib.Rng, s *hlib.Suite) {
+	tempShapedRef = false
 	qf, cols := genFrame(r, nil)
 	qf, cols, hist := deriveCols(r, qf, cols, s)
 	malformed := r.Chance(1, 4)
@@ -301,6 +311,9 @@ func evalCase(r *hlib.Rng, s *hlib.Suite) {
 	}
 	in := qframe.VerifDump(qf)
 	desc := map[string]interface{}{"op": "eval", "dst": dst, "expr": top.desc, "derivation": hist, "props": []string{"C07", "C10", "C01"}}
+	if tempShapedRef {
+		desc["class"] = "eval-missing-column-named-like-a-temporary"
+	}
 	var expr qframe.Expression
 	id := s.NextID()
 	if p, v := hlib.Recover(func() { expr = qframe.Val(top.goV) }); p {
